@@ -52,7 +52,7 @@ def min_n(row):
 def params(draw, row, N, cplx, windows=None):
     """Parameters of ``row`` inside its documented domain for data length N."""
     if row == "Periodogram":
-        return {"window": draw(st.sampled_from(windows or WINDOWS_SIMPLE))}
+        return {"window": draw(st.sampled_from(windows or WINDOWS_SIMPLE)), "detrend": draw(st.sampled_from([None, None, "mean"]))}
     if row == "pcorrelogram":
         return {"lag": draw(st.integers(1, max(1, min((N - 1) // 2, 40)))), "window": draw(st.sampled_from(windows or WINDOWS_SIMPLE))}
     if row == "pburg":
@@ -123,7 +123,7 @@ def min_nfft(row, N, p):
 def build(row, x, p, NFFT=None, sampling=1.0, scale_by_freq=False):
     kw = dict(NFFT=NFFT, sampling=sampling, scale_by_freq=scale_by_freq)
     if row == "Periodogram":
-        return spectrum.Periodogram(x, window=p["window"], **kw)
+        return spectrum.Periodogram(x, window=p["window"], detrend=p.get("detrend"), **kw)
     if row == "pcorrelogram":
         return spectrum.pcorrelogram(x, lag=p["lag"], window=p["window"], **kw)
     if row == "pburg":
